@@ -522,7 +522,8 @@ def solve_serialized(d: Dict[str, Any]) -> OblResult:
             base = [a for a in asr[:-1]]
             verdicts = []
             for dfn in defs:
-                ri, bi, si, _ = _solve_with_instantiation(base + [z3.Not(dfn.arg(0))], Z3_TIMEOUT_MS // 2)
+                # the conjunct itself, not its name: the instantiation round must see the quantifiers of a refuted conjunct
+                ri, bi, si, _ = _solve_with_instantiation([a for a in base if not any(a.eq(x) for x in defs)] + [z3.Not(dfn.arg(1))], Z3_TIMEOUT_MS // 2)
                 verdicts.append(ri)
                 if ri == z3.sat:
                     r, backend, s, failed_part = ri, bi, si, dfn.arg(0).decl().name()
